@@ -39,6 +39,11 @@ class Contract:
     # checks it on the real function; obligations that used one are "discharged modulo bounded"
     assumed_ensures: list[tuple[str, str]] = field(default_factory=list)
     defaults: dict[str, Any] = field(default_factory=dict)  # default values of optional parameters
+    wf: bool = True  # record parameters are assumed (and required at call sites) to be well-formed
+
+    def __post_init__(self):
+        # raises clauses may be tagged tuples like ensures; keep plain strings
+        self.raises = {k: [c[1] if isinstance(c, tuple) else c for c in v] for k, v in self.raises.items()}
 
     def clauses(self):
         out = []
@@ -342,6 +347,12 @@ def apply_contract(ip: Interp, c, recv, args, kwargs, n):
     p = ip.p
     env = bind_params(ip, c, recv, args, kwargs, n)
     short = c.key.split(':')[-1]
+    # well-formedness of record arguments is part of every precondition
+    for name, sortname in c.sig.items():
+        v = env.get(name)
+        if isinstance(v, (PRec, ZRec)) and c.wf:
+            for clause in ip.w.registry.classes.get(v.cls, {}).get('wf', []):
+                p.oblige('pre', spec_eval_env(ip, clause, {'self': v}), n, f'well-formed {name} for {short}: {clause}')
     for clause in c.requires:
         p.oblige('pre', spec_eval_env(ip, clause, env), n, f'precondition of {short}: {clause}')
     olds = {f'old_{k}': snapshot(v) for k, v in env.items()}
@@ -402,6 +413,18 @@ def apply_contract(ip: Interp, c, recv, args, kwargs, n):
 def _assign_form(ip: Interp, clause: str, env: dict, modifies: list[str]) -> bool:
     """a postcondition `<modified path> == <expr>` is applied as an assignment (keeps terms structural)."""
     node = ast.parse(clause.strip(), mode='eval').body
+    if isinstance(node, ast.Call) and isinstance(node.func, ast.Name) and node.func.id == 'top_only' \
+            and ast.unparse(node.args[0]) in [m.strip() for m in modifies]:
+        # "only the top frame may differ": the new stack is  old[:-1] ++ [some frame]
+        sub = Interp(ip.p, None, env, spec=True, fname='<assign-post>')
+        get, set_ = sub.place(node.args[0])
+        old = sub.ev(node.args[1])
+        st = sub.seq_from_end(old, 1)
+        if st is not None:
+            top = ip.p.fresh('top_after', old.sort().basis())
+            set_(sub.seq_join(sub.seq_parts(st[0]) + [z3.Unit(top)], old.sort()))
+            return True
+        return False
     if not (isinstance(node, ast.Compare) and len(node.ops) == 1 and isinstance(node.ops[0], ast.Eq)):
         return False
     left = ast.unparse(node.left)
@@ -504,7 +527,8 @@ def _run_path(ip: Interp, c: Contract, fn: ast.FunctionDef, cls):
     for g, gs in c.ghost.items():
         env[g] = mk_symbolic(ip, gs, g)
     for name, sortname in c.sig.items():
-        wf_assume(ip, env[name], sortname)
+        if c.wf:
+            wf_assume(ip, env[name], sortname)
     for clause in c.requires:
         p.assume(spec_eval_env(ip, clause, env))
     if any(ast.unparse(d) in ('contextmanager', 'contextlib.contextmanager') for d in fn.decorator_list):
